@@ -251,7 +251,9 @@ def never_compare(io, never_line):
 
 
 # ------------------------------------------------------------------ ref-counted link collections (no model)
-RC_HOLDS = {"p": ("q", "ps"), "q": ("p", "qs")}   # ids of store p are held by the set ps of q entities
+# ids of store p are held by the sets ps (root-level collection), cps and xps (collections whose other side is a child
+# store: pc.cqs <-> q.cps, qx.xps <-> p.xqs of the RCC database) of q entities, and the other way round
+RC_HOLDS = {"p": ("q", ("ps", "cps", "xps")), "q": ("p", ("qs", "cqs", "xqs"))}
 
 
 def rc_oracle(case, obs):
@@ -269,15 +271,15 @@ def rc_oracle(case, obs):
             _, R, X, res = t.split(":")
             if "E:%s:%s" % (R, X) in facts:
                 continue     # created again in the same transaction
-            other, field = RC_HOLDS[R]
+            other, fields = RC_HOLDS[R]
             probs = []
             for f in facts:
                 p = f.split(":")
                 if p[0] == "JUNK":
                     probs.append(f)
-                elif p[0] == "RC" and p[1] == R and p[2] == X:
+                elif p[0] in ("RC", "C") and p[1] == R and p[2] == X:
                     probs.append(f)
-                elif p[0] == "RC" and p[1] == other and p[3] == field and p[4] == X:
+                elif p[0] == "RC" and p[1] == other and p[3] in fields and p[4] == X:
                     probs.append(f)
                 elif p[0] == "U" and R in p[1:-2] and p[-1] == X:
                     probs.append(f)
@@ -298,7 +300,8 @@ def run(c):
         "hand-written store machine coq/theories/Store/Model.v (boltz CRUD, constraints, delete cascade, link cleanup, tx glue)",
         "bbolt as a transactional key/bucket store whose rollback restores the previous content",
         "extraction (ExtrOcamlBasic only) + extraction/store_driver.ml + drv_common.ml",
-        "Go harness store.go / store_gen.go / store_c06.go (schema interpreter, history generator, fact projection, ValidateDeleted call) "
+        "Go harness store.go / store_gen.go / store_c06.go / store_c06_child.go (schema interpreter, history generator, fact projection - "
+        "string sets inside a child-store bucket are projected to the same S: facts as the model's root-level sets -, ValidateDeleted call) "
         "and lib/storefam.py / checks/c06.py",
         "ref-counted link collections are NOT in the Coq machine: covered by the harness stream + oracle only",
     ]
@@ -420,12 +423,23 @@ def run(c):
         "transaction (DeleteById results and Deleted events, so cascaded deletes too) the no-trace oracle is evaluated on the "
         "implementation's facts and boltz.ValidateDeleted is called; a third of the histories use a reserved id and are executed a second "
         "time without the block create..delete: the suffix must be observed identically. Plus a stream over ref-counted link collections "
-        "(oracle only; 40 % of its histories contain a burst: hub linked to 3-5 neighbours and deleted in the same transaction). Non-trivial: every history has at least 5 transactions; distinct by case text.")
+        "(oracle only; 40 % of its histories contain a burst: hub linked to 3-5 neighbours and deleted in the same transaction). "
+        "CHILD-LEVEL histories (n/2 more in the quick, n/6 in the thorough tier; wirings C06cp / C06cx / C06cm, generated last so that the older streams "
+        "are unchanged): the per-level delete work lives on child stores - link collections whose local side is a plain or an extended child store "
+        "(child <-> root and child <-> child), set index / nullable unique index / fk index / fk constraints declared on a child store as referrer "
+        "(restrict and cascade) and with a child store as target (the back-reference set then lives inside the child bucket), two plain child stores "
+        "and a plain + an extended child store under one parent. Half of them put a subject X of a child store into every place of both levels "
+        "(links from X's side and from the other side, referrers, X's own fk fields) and delete it through the child store, through the parent store or "
+        "by the cascade that reaches it, alone or inside the transaction that wrote the mentions, then re-create the id through the parent / the same / "
+        "another child store; a quarter are bursts and a quarter the tail of the main stream (incl. never-existed runs) on these wirings. "
+        "Plus RCC histories: ref-counted collections declared on a plain child store (pc.cqs <-> q.cps) and on an extended child store "
+        "(qx.xps <-> p.xqs), hub written and deleted through child or parent store. Non-trivial: every history has at least 5 transactions; distinct by case text.")
     ks = sorted(set((0, len(cases) // 2, max(0, len(cases) - 1))))
     c.cov["samples"] = [dict(case=cases[k][:1500], impl=impl[k][:1500], model=modl[k][:1500]) for k in ks if k < len(cases)]
     try:
         c.cov["input_distribution"] = json.load(open(os.path.join(c.work, "stats.json")))
-        for key in ("burst_histories", "burst_delete_tx_committed", "burst_deleted_entities"):
+        for key in ("burst_histories", "burst_delete_tx_committed", "burst_deleted_entities", "child_histories", "child_delete_tx_committed",
+                    "child_deleted_entities", "rc_child_histories"):
             c.cov[key] = c.cov["input_distribution"].get(key, 0)
     except Exception:
         pass
@@ -441,7 +455,8 @@ def run(c):
 def main(argv):
     c = vlib.Check(PID, argv)
     c.assumptions = ["bbolt rollback restores the previous content (trusted; observed by the full traversal after every transaction)",
-                     "schemas satisfy wf_notrace_b (checked by computation for the three harness wirings in Examples/C06Examples.v)"]
+                     "schemas satisfy wf_notrace_b (checked by computation for the harness wirings idx, fkc, casc, cl and the child-level "
+                     "wirings C06cp, C06cx, C06cm in Examples/C06Wirings.v)"]
     files = [f for f in FILES if os.path.exists(os.path.join(vlib.COQ, f))]
     proof_ok = c.proof_step(files) and len(files) == len(FILES)
     run(c)
